@@ -235,7 +235,17 @@ def main():
         # the tie between model and source (translator / proofs over Gen / extraction) no longer checks
         ctx.violations.append({'kind': 'build-broken', 'found_input': False,
                                'replay': {'build_failures': ctx.build['failures']}})
-    rc = mod.run(ctx)
+    try:
+        rc = mod.run(ctx)
+    except Exception as e:
+        # the harness itself fell over (typically: the implementation raised somewhere the harness did not expect).
+        # The property is then not shown to hold: report it, naming the exception, instead of dying silently.
+        import traceback
+        tb = traceback.format_exc()
+        sys.stderr.write(tb)
+        ctx.violations.append({'kind': 'harness-exception', 'found_input': False,
+                               'replay': {'exception': type(e).__name__, 'message': str(e)[:300], 'traceback': tb[-1500:]}})
+        rc = ctx.finish('harness exception: %s' % type(e).__name__)
     sys.exit(rc)
 
 
